@@ -82,6 +82,9 @@ def run(ctx):
                 r = c01.impl_marshal(sig, pvs, off, le, [])
                 ctx.impl_trace()
                 if r[0] != 'ok' or r[2] != want or r[1] != len(want):
+                    if r[0] == 'ok' and r[1] == len(r[2]) and alternative_encoding(tys, svs, r[2], r[3], off, le):
+                        ctx.stat('encode:other-dict-entry-order')
+                        continue
                     ctx.violation(encode_key(r, want), 'marshal bytes differ from the DBus wire format',
                                   inp=c01.case_json(sig, pvs, off, le), observed=c01.canon_marshal(r),
                                   expected='ok %d %s' % (len(want), vc.bytes_hex(want)))
@@ -142,6 +145,59 @@ def run(ctx):
         if out is not None and out[i] != specwant[i]:
             ctx.disagree('spec-vs-reference', {'line': ln}, out[i], specwant[i])
     c01.check_unmarshal_batch(ctx, 'wire-decode', ubatch)
+
+
+def alternative_encoding(tys, svs, got, oob, off, le):
+    """The specification does not order the entries of a dict: bytes that the strict reference decoder reads
+    back as the same values up to the order of dict entries, and that are what the reference encoder
+    produces for the values in that order, are a correct encoding too."""
+    try:
+        dec, n = ref.decode(tys, c01.PREFIX[:off] + got, off, le)
+    except (ref.RefError, Exception):     # noqa: BLE001
+        return False
+    if n != len(got):
+        return False
+    try:
+        back = [_with_fds(t, s, oob) for t, s in zip(tys, dec)]
+        if ref.encode(tys, back, off, le) != got:
+            return False
+        return [_norm(t, s) for t, s in zip(tys, back)] == [_norm(t, s) for t, s in zip(tys, svs)]
+    except Exception:                     # noqa: BLE001
+        return False
+
+
+def _with_fds(ty, sv, oob):
+    if isinstance(ty, str):
+        if ty == 'h':
+            return oob[sv]
+        if ty == 'v':
+            return ('V', sv[1], _with_fds(sv[1], sv[2], oob))
+        return sv
+    if ty[0] == 'a':
+        return [_with_fds(ty[1], e, oob) for e in sv]
+    if ty[0] == '(':
+        return [_with_fds(f, e, oob) for f, e in zip(ty[1], sv)]
+    return (_with_fds(ty[1], sv[0], oob), _with_fds(ty[2], sv[1], oob))
+
+
+def _norm(ty, sv):
+    """Spec value with floats as bit patterns and dict entries sorted (for comparison only)."""
+    import struct
+    if isinstance(ty, str):
+        if ty == 'd':
+            return struct.pack('>d', sv).hex()
+        if ty == 'v':
+            return ['V', gv.render(sv[1]), _norm(sv[1], sv[2])]
+        return repr(sv)
+    if ty[0] == 'a':
+        el = ty[1]
+        xs = [_norm(el, e) for e in sv]
+        if not isinstance(el, str) and el[0] == '{':
+            xs.sort(key=repr)
+        return xs
+    if ty[0] == '(':
+        return [_norm(f, e) for f, e in zip(ty[1], sv)]
+    return [_norm(ty[1], sv[0]), _norm(ty[2], sv[1])]
 
 
 def encode_key(r, want):
